@@ -219,6 +219,32 @@ def expectedRefCalls : List (String × String × String) := [
   ("Writer.persisterLoop", "addRef", "1"),
   ("segmentWrapper.Close", "DecRef", "1")]
 
+/-- the release sites of temporary snapshot references (events `release`), with the conditions they sit
+under, reviewed: every `currentSnapshot()` / grab / notification reference is closed exactly once on every
+path — `defer` for the introducer's and `prepareSegment`'s `root`, the three-way pattern
+`err == ErrClosed` (Close; break) / other error (Close; continue) / success (Close) in the persister and
+the merger, `rootPrev` in `replaceRoot`, the half-built `newSnapshot` on `introduceSegment`'s error path,
+the merge notification in `executeMergeTask` / `persistSnapshotMaybeMerge` (defer) / `mergeSegmentBases`
+(skipped). -/
+def expectedSnapshotCloses : List (String × String × String) := [
+("Writer.MemoryUsed", "indexSnapshot", "defer"),
+  ("Writer.currentEpoch", "indexSnapshot", "indexSnapshot!=nil"),
+  ("Writer.executeMergeTask", "mergeTaskIntroStatus.snapshot", "mergeTaskIntroStatus!=nil&&mergeTaskIntroStatus.snapshot!=nil"),
+  ("Writer.introduceMerge", "root", "defer"),
+  ("Writer.introducePersist", "root", "defer"),
+  ("Writer.introduceSegment", "root", "defer"),
+  ("Writer.introduceSegment", "newSnapshot", "!ok > err!=nil"),
+  ("Writer.mergeSegmentBases", "newSnapshot", "mergeTaskIntroStatus!=nil&&mergeTaskIntroStatus.snapshot!=nil > mergeTaskIntroStatus.skipped"),
+  ("Writer.mergerLoop", "ourSnapshot", "select:<-ew.notifyCh > ourSnapshot.epoch!=lastEpochMergePlanned > err!=nil > err==segment.ErrClosed"),
+  ("Writer.mergerLoop", "ourSnapshot", "select:<-ew.notifyCh > ourSnapshot.epoch!=lastEpochMergePlanned > err!=nil"),
+  ("Writer.mergerLoop", "ourSnapshot", "select:<-ew.notifyCh"),
+  ("Writer.persistSnapshotMaybeMerge", "newSnapshot", "defer"),
+  ("Writer.persisterLoop", "ourSnapshot", "select:<-introducerEpochWatcher.notifyCh > ourSnapshot!=nil > err!=nil > err==segment.ErrClosed"),
+  ("Writer.persisterLoop", "ourSnapshot", "select:<-introducerEpochWatcher.notifyCh > ourSnapshot!=nil > err!=nil"),
+  ("Writer.persisterLoop", "ourSnapshot", "select:<-introducerEpochWatcher.notifyCh > ourSnapshot!=nil"),
+  ("Writer.prepareSegment", "root", "defer"),
+  ("Writer.replaceRoot", "rootPrev", "rootPrev!=nil")]
+
 /-- `X ⊆ Y` as a decidable check -/
 def subsetOf {α : Type} [BEq α] (xs ys : List α) : Bool := xs.all fun x => ys.contains x
 
@@ -236,6 +262,10 @@ theorem view_method_calls_allowed :
 /-- **ref_sites.** The `AddRef`/`DecRef`/`addRef`/`decRef` call sites of package `index` are exactly the ones
 the events of `Bluge.Refs` transcribe (a dropped or an added reference operation changes this table). -/
 theorem ref_sites : (BlugeGen.C04.refCalls == expectedRefCalls) = true := by decide
+
+/-- **release_sites.** The `Close()` calls on snapshots held by local variables are exactly the reviewed ones,
+under exactly the reviewed conditions (a hoisted, duplicated or dropped release changes this table). -/
+theorem release_sites : (BlugeGen.C04.snapshotCloses == expectedSnapshotCloses) = true := by decide
 
 /-- **no_close_then_reuse.** No method of `postingsIterator` calls `Close()` on its own receiver and then
 overwrites and keeps using `*recv` (the pre-fix backward-seek path of `Advance`); this is what removes
